@@ -363,7 +363,7 @@ func (e *env) run(kind string) (bool, string) {
 			e.obs = append(e.obs, o)
 		}
 		return okw, outcome(c)
-	case "obsCancel":
+	case "obsCancel", "obsCancelRefused", "obsCancelGiveUp":
 		if len(e.obs) == 0 {
 			return false, "noobservation"
 		}
@@ -377,7 +377,14 @@ func (e *env) run(kind string) (bool, string) {
 		if !ok {
 			return false, "norequest"
 		}
-		e.inject(message.Acknowledgement, codes.Content, q.MID, q.Token, nil, []byte("v"))
+		switch kind {
+		case "obsCancelRefused": // the peer no longer knows the resource
+			e.inject(message.Acknowledgement, codes.NotFound, q.MID, q.Token, nil, nil)
+		case "obsCancelGiveUp": // the deregistration is never answered and the caller gives up
+			cancel()
+		default:
+			e.inject(message.Acknowledgement, codes.Content, q.MID, q.Token, nil, []byte("v"))
+		}
 		return c.wait(), outcome(c)
 	case "pingOK", "pingCancel":
 		c := e.async(func() (*pool.Message, error) { return nil, cc.Ping(ctx) })
